@@ -14,6 +14,7 @@ HISTUC = {"name": "histuc", "corpus": True}
 RC = {"name": "rc", "corpus": True}
 HISTW = {"name": "histw", "corpus": True}
 INIT = {"name": "init", "corpus": True}
+APIBM = {"name": "apibm", "model": False}
 # a second, independently seeded pass of the waiting-biased histories (rare estimate shapes are a matter of density)
 HISTW2 = {"name": "histw", "label": "gen2", "env": {"VERIF_SEED_ADD": "1"}}
 
@@ -86,7 +87,7 @@ PROPS = {
             "technique": "Lean 4 proof (partial + counterexample theorems) + Spec oracle on the real code's observations",
             "design_ref": "DESIGN.md §5 C03",
         },
-        "lean_props": ["C03", "C08", "C10", "EngineThms", "LinksThms"],
+        "lean_props": ["C03", "C03I", "C08", "C10", "EngineThms", "LinksThms"],
         "streams": [SOL, HIST, HISTUC, INIT],
     },
     "C04": {
@@ -167,7 +168,7 @@ PROPS = {
             "technique": "Lean 4 proof (state-machine invariant, partial + counterexample theorems) + Spec oracle on the real code's observations",
             "design_ref": "DESIGN.md §5 C08",
         },
-        "lean_props": ["C08"],
+        "lean_props": ["C08", "C03I"],
         "streams": [SOL, HIST, HISTUC, INIT],
     },
     "C09": {
@@ -211,7 +212,7 @@ PROPS = {
             "design_ref": "DESIGN.md §5 C10",
         },
         "lean_props": ["C10", "C10S"],
-        "streams": [HIST],
+        "streams": [HIST, APIBM],
     },
     "C11": {
         "claim": {
@@ -332,7 +333,7 @@ PROPS = {
         },
         "lean_props": ["C16", "C01M"],
         "facts": ["FrontFacts"],
-        "streams": [{"name": "crash", "corpus": True, "model": False}, HIST, RC],
+        "streams": [{"name": "crash", "corpus": True, "model": False}, HIST, RC, APIBM],
         "also": [],
     },
     "C17": {
@@ -384,7 +385,7 @@ PROPS = {
             "technique": "Lean 4 proof (engine invariant with an arbitrary check) + user-predicate differential on the real code",
             "design_ref": "DESIGN.md §5 C19",
         },
-        "lean_props": ["C19", "EngineThms"],
+        "lean_props": ["C19", "C03I", "EngineThms"],
         "facts": ["ShapeFacts"],
         "streams": [HISTUC, INIT],
     },
